@@ -704,7 +704,14 @@ func (c *PathCtx) chanRecv(ch *Chan) (Value, bool) {
 	if ch == nil {
 		c.block(func() bool { return false }, "recv on nil chan")
 	}
-	c.block(ch.recvReady, "chan recv")
+	if ch.cap == 0 && !ch.recvReady() {
+		// a parked receiver on an unbuffered channel makes a non-blocking (select) send ready
+		ch.recvWaiting++
+		c.block(ch.recvReady, "chan recv")
+		ch.recvWaiting--
+	} else {
+		c.block(ch.recvReady, "chan recv")
+	}
 	return ch.take()
 }
 
@@ -728,7 +735,7 @@ func (ch *Chan) sendReady() bool {
 	if ch.cap > 0 {
 		return len(ch.buf) < ch.cap
 	}
-	return ch.recvWaiting > 0
+	return ch.recvWaiting > len(ch.buf) // every waiting receiver takes one handed-over value
 }
 
 func (c *PathCtx) selectInstr(fr *frame, instr *ssa.Select) Value {
